@@ -1,19 +1,35 @@
 (* C01 - a command is either durably and completely applied or has no lasting effect.
    Statements only; every proof is `exact <lemma>` into C01_Command/Proofs.v.
 
-   Vocabulary (C01_Command/Model.v): `run fx tl 1 steps state0` drives the model of the command
+   Vocabulary (C01_Command/Model.v): `run k ords 1 steps state0` drives the model of the command
    processor through a history `steps` of commands (each with its own fault plan: any set of
-   (write target, k-th write, fault kind)) and processor restarts, at trust level tl, from the
-   empty storage; fx says whether cmdProc.putPLog hands PutPlog's error to the pipeline (the Go
-   source's current answer is Gen.Params.c01_putplog_returns_err).  All theorems hold for every
-   trust level (also values the code does not know), every history and every fault plan. *)
+   (write target, k-th write, fault kind)) and processor restarts, from the empty storage.
+   `k : conf` holds what the model takes from the Go source: the trust level and two flags read by
+   the translator - does cmdProc.putPLog hand PutPlog's error to the pipeline
+   (c01_putplog_returns_err), does the flush loop of the sync actualizer stop at the first failing
+   projector (c01_sync_flush_stops_at_error). `code_conf tl` = the flags the source has now.
+   `ords stamp` is the order in which the sync actualizer serving a command flushes the np sync
+   projectors (a Go map order): any function listing exactly the projectors 0..np-1 (`ords_ok`).
+   All theorems hold for every trust level (also values the code does not know), every number of
+   sync projectors, every flush order, every history and every fault plan. *)
 From Coq Require Import List NArith Bool Lia.
 From V Require Import Gen.Params C01_Command.Model C01_Command.MapLemmas C01_Command.Ideal C01_Command.Proofs C01_Command.Oracle.
 Import ListNotations.
 Local Open Scope N_scope.
 
-(* side condition on the tables the translator took from istructsmem/impl.go: the re-apply path
-   of recovery (IEventReapplier) overwrites, it never uses a conditional insert *)
+(* side conditions on what the translator took from the Go source (editing the code re-opens them) *)
+
+(* pkg/processors/command/impl.go, cmdProc.putPLog: `return err` (finding F11, repaired in ee5a67b65) *)
+Lemma putplog_returns_error : c01_putplog_returns_err = true.
+Proof. reflexivity. Qed.
+
+(* pkg/processors/actualizers/impl.go, syncActualizerFactory, step "IntentsApplier": the loop over
+   the projector states returns at the first failing ApplyIntents *)
+Lemma flush_stops_at_first_error : c01_sync_flush_stops_at_error = true.
+Proof. reflexivity. Qed.
+
+(* istructsmem/impl.go: the re-apply path of recovery (IEventReapplier) overwrites, it never uses
+   a conditional insert *)
 Lemma reapply_is_unconditional : reapply_unconditional.
 Proof.
   split; [reflexivity|]. intros tl. unfold tl_flag, c05_rec_reapply_ops.
@@ -21,139 +37,205 @@ Proof.
 Qed.
 
 (* 1. After any history with any faults, one recovery without faults succeeds, leaves the
-   partition log as it is, and then the partition log, the workspace logs, the records and the
+   partition log as it is, and then the partition log, the workspace logs, the records and every
    synchronous projection describe the same events: PLog offsets 1..n without a gap, per
    workspace WLog offsets 1..m without a gap holding exactly that workspace's PLog events in
-   order, records = fold of the PLog, one projection row per event (`consistent`). *)
+   order, records = fold of the PLog, one row per event in the view of every one of the np sync
+   projectors (`consistent np`). *)
 Theorem recovery_restores_consistency :
-  forall fx tl steps st outs,
-  run fx tl 1 steps state0 = (st, outs) ->
-  exists s' l' p, recover tl [] (sto st) [] = (s', l', Some p)
-    /\ plog s' = plog (sto st) /\ consistent s'.
-Proof. exact (fun fx tl steps st outs => recovery_restores_consistency_proved fx tl steps st outs reapply_is_unconditional). Qed.
+  forall tl np ords steps st outs,
+  ords_ok np ords ->
+  run (code_conf tl) ords 1 steps state0 = (st, outs) ->
+  forall ord, ord_ok np ord ->
+  exists s' l' p, recover (code_conf tl) ord [] (sto st) [] = (s', l', Some p)
+    /\ plog s' = plog (sto st) /\ consistent np s'.
+Proof.
+  exact (fun tl np ords steps st outs Ho =>
+    recovery_restores_consistency_proved (code_conf tl) ords np steps st outs
+      flush_stops_at_first_error Ho reapply_is_unconditional).
+Qed.
 
 (* 1'. Whenever the processor holds partition state (that is: unless the last command failed at a
    write step and the partition awaits recovery) the stores are consistent already. *)
 Theorem serving_state_consistent :
-  forall fx tl steps st outs,
-  run fx tl 1 steps state0 = (st, outs) -> mem st <> None -> consistent (sto st).
-Proof. exact serving_state_consistent_proved. Qed.
+  forall tl np ords steps st outs,
+  ords_ok np ords ->
+  run (code_conf tl) ords 1 steps state0 = (st, outs) -> mem st <> None -> consistent np (sto st).
+Proof.
+  exact (fun tl np ords steps st outs =>
+    serving_state_consistent_proved (code_conf tl) ords np steps st outs flush_stops_at_first_error).
+Qed.
+
+(* 1''. Full statement for a sync actualizer that flushes every projector and reports only the
+   last one's error (flag false; the shape of seeded mutation c01-3): REFUTED - two projectors, a
+   fault before effect at the first view write of a command: the command is answered with
+   success, the partition keeps its state, and the first projection misses the event for ever
+   (a later recovery re-applies only the last PLog event). *)
+Theorem consistency_refuted_without_early_return :
+  exists steps st outs,
+  run (mkConf true false 0) (fun _ => [0; 1]) 1 steps state0 = (st, outs)
+  /\ Forall (fun o => exists w ids, o_reply o = ROk w ids) outs
+  /\ mem st <> None
+  /\ ~ consistent 2 (sto st)
+  /\ forall s' l' p, recover (mkConf true false 0) [0; 1] [] (sto st) [] = (s', l', p) -> ~ consistent 2 s'.
+Proof.
+  exists [SCmd (mkCmd 1 false [Ins 1 5]) [(TView, 1, FBefore)]; SCmd (mkCmd 1 false [Ins 1 6]) []].
+  eexists. eexists. split; [vm_compute; reflexivity|]. split; [|split; [|split]].
+  - repeat constructor; eexists; eexists; reflexivity.
+  - discriminate.
+  - intros (_ & _ & _ & _ & H). specialize (H 0 eq_refl 1 1). vm_compute in H. discriminate.
+  - intros s' l' p E. vm_compute in E. inversion E; subst. clear E.
+    intros (_ & _ & _ & _ & H). specialize (H 0 eq_refl 1 1). vm_compute in H. discriminate.
+Qed.
 
 (* 2. The partition log holds exactly the commands whose PLog write took effect, in the order
    they were sent, each exactly once, each with the rows of its command and IDs / offset named in
    its reply; a command answered with success is among them, a command answered 4xx is not
    (reply_fits), and so is no command whose PLog write had no effect (o_written = false: it is
-   not in `written_cmds`).  With theorem 1: commands in the list are in all four stores after
+   not in `written_cmds`).  With theorem 1: commands in the list are in all stores after
    recovery (also those that failed after the PLog write: completed, not half-applied), the
    others in none. *)
 Theorem log_is_the_written_commands :
-  forall fx tl steps st outs,
-  run fx tl 1 steps state0 = (st, outs) ->
+  forall tl np ords steps st outs,
+  ords_ok np ords ->
+  run (code_conf tl) ords 1 steps state0 = (st, outs) ->
   Forall2 log_fits (events st) (written_cmds 1 steps outs)
   /\ Forall (fun o => forall w ids, o_reply o = ROk w ids -> o_written o = true) outs.
-Proof. exact log_is_the_written_commands_proved. Qed.
+Proof.
+  exact (fun tl np ords steps st outs =>
+    log_is_the_written_commands_proved (code_conf tl) ords np steps st outs flush_stops_at_first_error).
+Qed.
 
 (* 2'. Every update / deactivation row in the log addresses a record created by an earlier event
    of its workspace, and an update of V carries (and so leaves) the sys.IsActive value the record
    has by the earlier events: a command never touches what it did not name. *)
 Theorem log_rows_well_formed :
-  forall fx tl steps st outs,
-  run fx tl 1 steps state0 = (st, outs) -> acts_ok [] (events st) = true.
-Proof. exact log_rows_well_formed_proved. Qed.
-
-(* 3. Exactly one reply per command, no dead processor - full statement:
-
-     forall fx tl steps st outs, run fx tl 1 steps state0 = (st, outs) ->
-       Forall (fun o => o_reply o <> RNone) outs.
-
-   It holds when putPLog returns the error (fx = true), it is refuted when putPLog swallows it
-   (fx = false: one command, error before effect at the PLog write; finding F11), and without
-   a fault at a PLog write it holds whatever putPLog does. *)
-Theorem every_command_answered :
-  forall tl steps st outs,
-  run true tl 1 steps state0 = (st, outs) -> Forall (fun o => o_reply o <> RNone) outs.
-Proof. exact every_command_answered_proved. Qed.
-
-Theorem every_command_answered_refuted :
-  exists tl steps st outs,
-  run false tl 1 steps state0 = (st, outs) /\ ~ Forall (fun o => o_reply o <> RNone) outs.
+  forall tl np ords steps st outs,
+  ords_ok np ords ->
+  run (code_conf tl) ords 1 steps state0 = (st, outs) -> acts_ok [] (events st) = true.
 Proof.
-  exists 0, [SCmd (mkCmd 1 false [Ins 1 5]) [(TPLog, 1, FBefore)]].
+  exact (fun tl np ords steps st outs =>
+    log_rows_well_formed_proved (code_conf tl) ords np steps st outs flush_stops_at_first_error).
+Qed.
+
+(* 3. Exactly one reply per command, no dead processor: for the code as it is (putPLog returns
+   the error), whatever the flush order and the projectors. *)
+Theorem every_command_answered :
+  forall tl ords steps st outs,
+  run (code_conf tl) ords 1 steps state0 = (st, outs) -> Forall (fun o => o_reply o <> RNone) outs.
+Proof.
+  exact (fun tl ords steps st outs =>
+    every_command_answered_proved (code_conf tl) ords putplog_returns_error steps 1 state0 st outs).
+Qed.
+
+(* 3'. The same statement for a putPLog that swallows the error (flag false; the code before
+   ee5a67b65, finding F11) is false: one command, error before effect at the PLog write ... *)
+Theorem every_command_answered_refuted :
+  exists tl ords steps st outs,
+  run (mkConf false true tl) ords 1 steps state0 = (st, outs) /\ ~ Forall (fun o => o_reply o <> RNone) outs.
+Proof.
+  exists 0, (fun _ => [0]), [SCmd (mkCmd 1 false [Ins 1 5]) [(TPLog, 1, FBefore)]].
   eexists. eexists. split; [vm_compute; reflexivity|].
   intros H. inversion H as [|? ? Hx _]. apply Hx. reflexivity.
 Qed.
 
+(* ... while without a fault at a PLog write nobody dies, whatever putPLog does. *)
 Theorem every_command_answered_partial :
-  forall fx tl steps st outs,
-  no_plog_fault steps ->
-  run fx tl 1 steps state0 = (st, outs) -> Forall (fun o => o_reply o <> RNone) outs.
-Proof. exact every_command_answered_partial_proved. Qed.
+  forall fx tl np ords steps st outs,
+  ords_ok np ords -> no_plog_fault steps ->
+  run (mkConf fx true tl) ords 1 steps state0 = (st, outs) -> Forall (fun o => o_reply o <> RNone) outs.
+Proof.
+  exact (fun fx tl np ords steps st outs =>
+    every_command_answered_partial_proved (mkConf fx true tl) ords np steps st outs eq_refl).
+Qed.
 
 (* 4. No offset is reused: what the partition log or a workspace log holds at an offset after a
    history it holds after every continuation of that history. *)
 Theorem log_entries_never_change :
-  forall fx tl steps1 steps2 st1 outs1 st2 outs2,
-  run fx tl 1 steps1 state0 = (st1, outs1) ->
-  run fx tl 1 (steps1 ++ steps2) state0 = (st2, outs2) ->
+  forall tl np ords steps1 steps2 st1 outs1 st2 outs2,
+  ords_ok np ords ->
+  run (code_conf tl) ords 1 steps1 state0 = (st1, outs1) ->
+  run (code_conf tl) ords 1 (steps1 ++ steps2) state0 = (st2, outs2) ->
   (forall o e, nget (plog (sto st1)) o = Some e -> nget (plog (sto st2)) o = Some e)
   /\ (forall ws w e, get2 (wlog (sto st1)) ws w = Some e -> get2 (wlog (sto st2)) ws w = Some e).
-Proof. exact log_entries_never_change_proved. Qed.
+Proof.
+  exact (fun tl np ords steps1 steps2 st1 outs1 st2 outs2 =>
+    log_entries_never_change_proved (code_conf tl) ords np steps1 steps2 st1 outs1 st2 outs2
+      flush_stops_at_first_error).
+Qed.
 
 (* 5. The processor keeps serving: after any history with any faults a well-formed insert
-   command sent without faults is answered with success (whatever putPLog does), and the stores
-   are consistent afterwards. *)
+   command sent without faults is answered with success, and the stores are consistent afterwards. *)
 Theorem clean_command_succeeds :
-  forall fx tl steps c st outs,
+  forall tl np ords steps c st outs,
+  ords_ok np ords ->
   insert_only c = true ->
-  run fx tl 1 (steps ++ [SCmd c []]) state0 = (st, outs) ->
-  (exists w ids, option_map o_reply (last_opt outs) = Some (ROk w ids)) /\ consistent (sto st).
-Proof. exact (fun fx tl steps c st outs => clean_command_succeeds_proved fx tl steps c st outs reapply_is_unconditional). Qed.
+  run (code_conf tl) ords 1 (steps ++ [SCmd c []]) state0 = (st, outs) ->
+  (exists w ids, option_map o_reply (last_opt outs) = Some (ROk w ids)) /\ consistent np (sto st).
+Proof.
+  exact (fun tl np ords steps c st outs Ho =>
+    clean_command_succeeds_proved (code_conf tl) ords np steps c st outs
+      flush_stops_at_first_error Ho reapply_is_unconditional).
+Qed.
 
 (* 6. The boolean oracle evaluated on observed traces is sound for `consistent`: a trace the
-   check accepts (`satisfies`) read back stores that are consistent in the sense of theorem 1. *)
+   check accepts (`satisfies`) read back stores that are consistent in the sense of theorem 1,
+   for the number of sync projectors of the test application. *)
 Theorem oracle_sound :
-  forall t, satisfies t = true -> consistent (mkStore (t_plog t) (t_wlog t) (t_recs t) (t_proj t)).
+  forall t, satisfies t = true ->
+  consistent (t_np t) (mkStore (t_plog t) (t_wlog t) (t_recs t) (t_proj t)).
 Proof. exact satisfies_consistent. Qed.
 
-(* ---------- non-vacuity: a history with faults at the records, the view and the PLog, a
-   restart, a failed recovery, an unknown record ---------- *)
+(* ---------- non-vacuity: three projectors flushed in the order 2,0,1; a history with faults at
+   the records, the views and the PLog, a restart, a failed recovery, an unknown record ---------- *)
+
+Definition ex_ords : N -> list N := fun _ => [2; 0; 1].
+
+Lemma ex_ords_ok : ords_ok 3 ex_ords.
+Proof. intros t j. unfold ex_ords. cbn. lia. Qed.
 
 Definition ex_steps : list step :=
   [SCmd (mkCmd 1 false [Ins 1 5; Ins 2 6]) [];
    SCmd (mkCmd 1 false [Ins 1 7; Upd 200001 8; Deact 200002]) [(TRec, 2, FAfter)];  (* half-applied *)
    SRestart;
-   SCmd (mkCmd 2 false [Ins 1 9]) [(TView, 1, FBefore)];                            (* recovery fails *)
+   SCmd (mkCmd 2 false [Ins 1 9]) [(TView, 2, FBefore)];                            (* recovery fails at the 2nd projector *)
    SCmd (mkCmd 2 false [Upd 200001 3]) [(TPLog, 1, FBefore)];                       (* recovers; unknown record *)
-   SCmd (mkCmd 2 false [Ins 1 9]) [(TPLog, 1, FAfter)]].                            (* written, error reported *)
+   SCmd (mkCmd 2 false [Ins 1 9]) [(TView, 1, FAfter)]].                            (* first projector written, error *)
 
 Example history_nonvacuous :
-  let '(st, outs) := run true 0 1 ex_steps state0 in
+  let '(st, outs) := run (mkConf true true 0) ex_ords 1 ex_steps state0 in
   map o_reply outs = [ROk 1 [200001; 200002]; RServer; RClient; RClient; RServer]
   /\ map o_written outs = [true; true; false; false; true]
   /\ map e_tag (events st) = [1; 2; 5]
   /\ map e_cuds (events st) = [[ENew 200001 5; ENew 200002 6]; [ENew 200003 7; EUpd 200001 8 true; EDeact 200002]; [ENew 200001 9]]
   /\ mem st = None
-  /\ get2 (wlog (sto st)) 2 1 = None                       (* the last event is not yet in the WLog *)
-  /\ get2 (recs (sto st)) 1 200001 = Some (mkRec 8 true)   (* the half-applied one was completed *)
+  /\ get2 (wlog (sto st)) 2 1 = Some (mkEvent 5 2 1 [ENew 200001 9])
+  /\ get3 (proj (sto st)) 2 2 1 = Some 5        (* the projector flushed first has the row ... *)
+  /\ get3 (proj (sto st)) 0 2 1 = None          (* ... the others not yet *)
+  /\ get3 (proj (sto st)) 0 1 2 = Some 2        (* the half-applied event was completed: every view *)
+  /\ get3 (proj (sto st)) 1 1 2 = Some 2
+  /\ get2 (recs (sto st)) 1 200001 = Some (mkRec 8 true)
   /\ get2 (recs (sto st)) 1 200002 = Some (mkRec 6 false).
 Proof. vm_compute. repeat split. Qed.
 
 Example recovery_nonvacuous :
-  let '(st, _) := run false 1 1 ex_steps state0 in
-  let '(s', _, p) := recover 1 [] (sto st) [] in
+  let '(st, _) := run (code_conf 1) ex_ords 1 ex_steps state0 in
+  let '(s', _, p) := recover (code_conf 1) [1; 2; 0] [] (sto st) [] in
   p <> None /\ get2 (wlog s') 2 1 = Some (mkEvent 5 2 1 [ENew 200001 9])
-  /\ get2 (proj s') 2 1 = Some 5 /\ get2 (recs s') 2 200001 = Some (mkRec 9 true)
+  /\ get3 (proj s') 0 2 1 = Some 5 /\ get3 (proj s') 1 2 1 = Some 5 /\ get3 (proj s') 2 2 1 = Some 5
+  /\ get2 (recs s') 2 200001 = Some (mkRec 9 true)
   /\ map fst (plog s') = [1; 2; 3].
 Proof. vm_compute. repeat split. discriminate. Qed.
 
 Example answered_nonvacuous :
-  let '(_, outs) := run false 0 1 ex_steps state0 in
-  map o_reply outs = [ROk 1 [200001; 200002]; RServer; RClient; RClient; RNone].
-Proof. vm_compute. reflexivity. Qed.
+  let steps := [SCmd (mkCmd 1 false [Ins 1 5]) [(TPLog, 1, FAfter)]; SCmd (mkCmd 1 false [Ins 1 6]) []] in
+  map o_reply (snd (run (code_conf 0) ex_ords 1 steps state0)) = [RServer; ROk 2 [200002]]
+  /\ map o_reply (snd (run (mkConf false true 0) ex_ords 1 steps state0)) = [RNone; ROk 2 [200002]].
+Proof. vm_compute. split; reflexivity. Qed.
 
 Example no_plog_fault_nonvacuous :
   no_plog_fault (firstn 4 ex_steps)
-  /\ map o_reply (snd (run false 0 1 (firstn 4 ex_steps) state0)) = [ROk 1 [200001; 200002]; RServer; RClient].
+  /\ map o_reply (snd (run (mkConf false true 0) ex_ords 1 (firstn 4 ex_steps) state0)) = [ROk 1 [200001; 200002]; RServer; RClient].
 Proof.
   split; [|vm_compute; reflexivity].
   intros c plan Hin k. cbn in Hin.
@@ -161,8 +243,8 @@ Proof.
 Qed.
 
 Example never_change_nonvacuous :
-  let st1 := fst (run true 0 1 (firstn 2 ex_steps) state0) in
-  let st2 := fst (run true 0 1 ex_steps state0) in
+  let st1 := fst (run (code_conf 0) ex_ords 1 (firstn 2 ex_steps) state0) in
+  let st2 := fst (run (code_conf 0) ex_ords 1 ex_steps state0) in
   nget (plog (sto st1)) 2 = Some (mkEvent 2 1 2 [ENew 200003 7; EUpd 200001 8 true; EDeact 200002])
   /\ nget (plog (sto st2)) 2 = nget (plog (sto st1)) 2
   /\ get2 (wlog (sto st1)) 1 2 = None /\ get2 (wlog (sto st2)) 1 2 = nget (plog (sto st2)) 2.
@@ -171,31 +253,34 @@ Proof. vm_compute. repeat split. Qed.
 Example clean_command_nonvacuous :
   let c := mkCmd 3 false [Ins 1 1; Ins 2 2] in
   insert_only c = true
-  /\ option_map o_reply (last_opt (snd (run false 0 1 (ex_steps ++ [SCmd c []]) state0))) = Some (ROk 1 [200001; 200002]).
+  /\ option_map o_reply (last_opt (snd (run (code_conf 0) ex_ords 1 (ex_steps ++ [SCmd c []]) state0))) = Some (ROk 1 [200001; 200002]).
 Proof. vm_compute. split; reflexivity. Qed.
 
-(* the trace the model (with putPLog as the Go source has it) produces for ex_steps followed by a
-   clean insert agrees with itself and passes the lenient oracle; the strict oracle accepts it
-   exactly when putPLog returns the error (otherwise one command of ex_steps gets no reply) *)
-Definition ex_trace (lenient : bool) : trace :=
+(* the trace the model (with the flags of the Go source, projectors flushed in the order 0,1,2 as
+   `agrees` runs it) produces for ex_steps followed by a clean insert agrees with itself and passes
+   the oracle; with the row of one projection removed the oracle rejects it *)
+Definition ex_trace (drop : bool) : trace :=
   let steps := ex_steps ++ [SCmd (mkCmd 1 false [Ins 1 99]) []] in
-  let '(st, outs) := run c01_putplog_returns_err 0 1 steps state0 in
-  mkTrace 0 lenient
+  let '(st, outs) := run (code_conf 0) (fun _ => [0; 1; 2]) 1 steps state0 in
+  mkTrace 0 3 false
     (fst (fold_left (fun '(acc, os) s =>
             match s, os with
             | SCmd c plan, o :: r => (acc ++ [OCmd c plan (map (fired_in (o_calls o)) plan) (o_reply o) (o_calls o)], r)
             | SRestart, _ => (acc ++ [ORestart], os)
             | _, _ => (acc, os)
             end) steps ([], outs)))
-    (plog (sto st)) (wlog (sto st)) (recs (sto st)) (proj (sto st)).
+    (plog (sto st)) (wlog (sto st)) (recs (sto st))
+    (if drop then tl (proj (sto st)) else proj (sto st)).
 
 Example oracle_nonvacuous :
-  satisfies (ex_trace true) = true /\ agrees (ex_trace true) = true
-  /\ satisfies (ex_trace false) = c01_putplog_returns_err /\ length (t_plog (ex_trace true)) = 4%nat.
+  satisfies (ex_trace false) = true /\ agrees (ex_trace false) = true
+  /\ satisfies (ex_trace true) = false /\ length (t_plog (ex_trace false)) = 4%nat
+  /\ map fst (t_proj (ex_trace false)) = [0; 1; 2].
 Proof. vm_compute. repeat split. Qed.
 
 Print Assumptions recovery_restores_consistency.
 Print Assumptions serving_state_consistent.
+Print Assumptions consistency_refuted_without_early_return.
 Print Assumptions log_is_the_written_commands.
 Print Assumptions log_rows_well_formed.
 Print Assumptions every_command_answered.
